@@ -88,6 +88,12 @@ def run(pid):
     with Scratch(pid) as sc:
         strs, gst = strings_for(pid, t, rng, sc)
         vlog("strings", len(strs), gst)
+        mc = {}
+        if pid == "C11":  # the transcribed scanner model-checked over every string of the alphabet up to a length
+            cfg = ("SPECIFICATION Spec\nCONSTANTS NQ = 3\n MaxLen = %d\n MinLen = 99\n Family = \"sections\"\n"
+                   "INVARIANT ScannerOK\nCHECK_DEADLOCK FALSE\n") % (4 if t == "quick" else 5)
+            r = tlc.run_model("MC_Decompile", cfg, sc, workers=16, timeout=3000, heap="8g")
+            mc = {"spec": "MC_Decompile", "max_len": 4 if t == "quick" else 5, "stats": r["stats"], "invariant_ScannerOK": "violated" if r["violated"] else "holds"}
         bynq = {}
         for nq, s in strs:
             bynq.setdefault(nq, []).append(s)
@@ -100,10 +106,12 @@ def run(pid):
             c["id"] = k
         vlog("executed", len(cases))
         verdicts, stats = tlc.run_cases("Trace_Gates", cases, sc, env={"PROP": pid}, timeout=2400, heap="4g")
-    vst, nontriv, clauses = {}, 0, {}
+    vst, nontriv, clauses, conf = {}, 0, {}, {}
     for c in cases:
         v = verdicts[c["id"]]
         vst[v[0]] = vst.get(v[0], 0) + 1
+        if pid == "C11" and v[0] == "ok":
+            conf[v[1]] = conf.get(v[1], 0) + 1
         if v[0] == "ok" and v[2] > 0:
             nontriv += 1
         if v[0] == "fail":
@@ -117,7 +125,8 @@ def run(pid):
            "rule": ("one case = one gate string built as a real circuit and decompiled; non-trivial = at least one section reported"
                     if pid == "C11" else
                     "one case = one gate string built as a real circuit and optimised; non-trivial = the optimiser removed at least one gate; unitaries compared exactly on every basis state by TLC (spec/QSim.tla)"),
-           "generator_states": gst, "verdicts": vst, "failing_clauses": clauses}
+           "generator_states": gst, "verdicts": vst, "failing_clauses": clauses,
+           "refinement": {"scanner_model_vs_real": conf, "model_checking": mc}}
     vac = None if vst.get("ok", 0) >= 200 and nontriv >= 50 else f"ok={vst.get('ok', 0)} nontrivial={nontriv}"
     return rep.finish(cov, T0.s(), assumptions=["spec/Circuit.tla, spec/BoolSem.tla, spec/QSim.tla (contract layer)"], vacuity=vac)
 
